@@ -62,10 +62,10 @@ def extractor_for(name):
 
 # ------------------------------------------------------------------ builders --
 def zip_bytes(members):
-    """members: [(name, data, flags, method_override or None)] ; flags / method patched into local + central headers."""
+    """members: [(name, data, flags, method_override or None[, declared_size])] ; patched into local + central headers."""
     buf = io.BytesIO()
     with zipfile.ZipFile(buf, "w", zipfile.ZIP_STORED) as z:
-        for name, data, _f, _m in members:
+        for name, data, *_rest in members:
             z.writestr(name, data)
     raw = bytearray(buf.getvalue())
     pos, idx = 0, 0
@@ -74,7 +74,10 @@ def zip_bytes(members):
         if p < 0:
             break
         lho = struct.unpack_from("<I", raw, p + 42)[0]
-        _n, _d, flags, method = members[idx]
+        _n, _d, flags, method = members[idx][:4]
+        if len(members[idx]) > 4 and members[idx][4] is not None:      # declared uncompressed size (central + local header)
+            struct.pack_into("<I", raw, p + 24, members[idx][4])
+            struct.pack_into("<I", raw, lho + 22, members[idx][4])
         if flags:
             struct.pack_into("<H", raw, p + 8, struct.unpack_from("<H", raw, p + 8)[0] | flags)
             struct.pack_into("<H", raw, lho + 6, struct.unpack_from("<H", raw, lho + 6)[0] | flags)
@@ -124,6 +127,28 @@ F18_WITNESSES = {
     "picture-name": lambda s: s.replace("</manifest:manifest>", '<manifest:file-entry manifest:full-path="Pictures/encryption-data.png" manifest:media-type="image/png"/></manifest:manifest>'),
     "attribute-value": lambda s: s.replace("</manifest:manifest>", '<manifest:file-entry manifest:full-path="notes/manifest:algorithm.txt" manifest:media-type="text/plain"/></manifest:manifest>'),
 }
+
+
+def _redeclare(s, name):
+    import re
+    body = re.sub(r"^\s*<\?xml[^>]*\?>", "", s, count=1)
+    return (f'<?xml version="1.0" encoding="{name}"?>' if name else "") + body
+
+
+def _reprefix(s):
+    import re
+    return re.sub(r"(?<=[<\s/])manifest:(?=[A-Za-z-]+[\s=/>])", "m:", s).replace("xmlns:manifest=", "xmlns:m=")
+
+
+MANIFEST_ENCODINGS = [
+    ("UTF-16 LE with BOM, declared", lambda s: b"\xff\xfe" + _redeclare(s, "UTF-16").encode("utf-16-le")),
+    ("UTF-16 BE with BOM, declared", lambda s: b"\xfe\xff" + _redeclare(s, "UTF-16").encode("utf-16-be")),
+    ("UTF-16 LE with BOM, no XML declaration", lambda s: b"\xff\xfe" + _redeclare(s, None).encode("utf-16-le")),
+    ("UTF-8 with BOM", lambda s: b"\xef\xbb\xbf" + _redeclare(s, "UTF-8").encode("utf-8")),
+    ("ISO-8859-1, declared", lambda s: _redeclare(s, "ISO-8859-1").encode("latin-1", "xmlcharrefreplace")),
+    ("UTF-8, namespace prefix m: instead of manifest:", lambda s: _reprefix(s).encode("utf-8")),
+    ("UTF-8, no XML declaration", lambda s: _redeclare(s, None).encode("utf-8")),
+]
 
 
 def manifest_has_encryption_element(data):
@@ -473,6 +498,38 @@ def sweep():
             res = run(read_archive, zip_bytes(mem[::-1] if order else mem), "x.zip")
             if res[0] != "encrypted" or res[1] != 0:
                 return fail("read_archive(zip)", {"members": [m_[0] for m_ in (mem[::-1] if order else mem)], "flagged": skipped}, "encrypted (0 results before)", str(res))
+    # 3b. the flag decides, whatever the compression method field says: WinZip AES (AE-1/AE-2) members carry method 99 (real
+    #     method in the 0x9901 extra field); PKWARE strong encryption / other writers combine the flag with any method id.
+    #     An unflagged member with a method zipfile cannot inflate is a failed archive, never an encrypted one.
+    for method in (99, 0, 8, 9, 12, 14, 93, 95, 98, 1):
+        for pos in (0, 1):
+            for flagged in (True, False):
+                if not flagged and method in (0, 8, 12, 14):
+                    continue                                  # (a stored payload declared as deflate/bzip2/lzma: read errors, not the point)
+                mem = [("a.txt", b"plain text", 0, None)]
+                mem.insert(pos, ("secret.txt", b"0123456789abcdef" * 3, 1 if flagged else 0, method))
+                res = run(read_archive, zip_bytes(mem), "x.zip")
+                inp = {"members": [m_[0] for m_ in mem], "member": "secret.txt", "flag_bit_0": flagged, "compression_method_field": method}
+                if flagged and (res[0] != "encrypted" or res[1] != 0):
+                    return fail("read_archive(zip)", inp, "encrypted (0 results before)", str(res))
+                if not flagged and res[0] == "encrypted":
+                    return fail("read_archive(zip)", inp, "not rejected as encrypted (no member has flag bit 0)", str(res))
+    #     ... and an unflagged member that cannot be inflated in front of a flagged one does not turn the archive into a
+    #     merely `failed` one: every flag is looked at before anything is read or given up on
+    for method in (9, 99, 93):
+        mem = [("first.txt", b"0123456789abcdef" * 3, 0, method), ("secret.txt", b"0123456789abcdef" * 3, 1, None), ("a.txt", b"plain text", 0, None)]
+        res = run(read_archive, zip_bytes(mem), "x.zip")
+        if res[0] != "encrypted" or res[1] != 0:
+            return fail("read_archive(zip)", {"members": [m_[0] for m_ in mem], "flagged": "secret.txt", "first.txt": f"no flag, compression method field {method}"},
+                        "encrypted (0 results before)", str(res))
+    # 3c. ... and whatever its size fields say (an empty member, a member declared larger than any in-memory limit)
+    for label, data_, size in (("empty", b"", None), ("declared 3 GiB", b"0123456789abcdef", 3 << 30), ("declared 4 GiB - 1", b"0123456789abcdef", 0xFFFFFFFF - 1)):
+        for pos in (0, 1):
+            mem = [("a.txt", b"plain text", 0, None)]
+            mem.insert(pos, ("secret.txt", data_, 1, None, size))
+            res = run(read_archive, zip_bytes(mem), "x.zip")
+            if res[0] != "encrypted" or res[1] != 0:
+                return fail("read_archive(zip)", {"members": [m_[0] for m_ in mem], "flagged": "secret.txt", "size_of_flagged_member": label}, "encrypted (0 results before)", str(res))
     res = run(read_archive, zip_bytes([("d/", b"", 1, None), ("d/a.txt", b"plain", 0, None)]), "x.zip")      # flag on a directory entry only
     if res[0] == "encrypted":
         return fail("read_archive(zip)", {"members": "directory entry with flag bit 0, plain file"}, "not encrypted", str(res))
@@ -508,6 +565,21 @@ def sweep():
             res = run(extractor_for(ext), data, ext)
             if res[0] != want or (want == "encrypted" and res[1] != 0):
                 return fail("extractor:" + ext, {"fixture": fx, "manifest_has_encryption_data": want == "encrypted"}, want, str(res))
+        # the manifest is an ordinary XML document: the same two packages with the manifest serialised in another encoding
+        # (BOM / encoding declaration; the element is there for the XML parser, whatever the raw bytes look like)
+        for enc_name, recode in MANIFEST_ENCODINGS:
+            for edit, want in ((lambda m: m, "ok"), (_inject_enc, "encrypted")):
+                data = rebuild_zip(src, lambda name, d, e=edit, rc=recode: rc(e(d.decode("utf-8"))) if name == "META-INF/manifest.xml" else d)
+                try:
+                    truth = manifest_has_encryption_element(data)
+                except Exception:  # noqa -- this parser build does not know the encoding: nothing to compare with
+                    continue
+                if truth != (want == "encrypted"):
+                    return fail("builder", {"fixture": fx, "manifest_encoding": enc_name}, "re-encoded manifest keeps its elements", "builder broken")
+                res = run(extractor_for(ext), data, ext)
+                if (res[0] == "encrypted") != (want == "encrypted") or (want == "encrypted" and res[1] != 0):
+                    return fail("extractor:" + ext, {"fixture": fx, "manifest_encoding": enc_name, "manifest_has_encryption_data": want == "encrypted"},
+                                want if want == "encrypted" else "not rejected as encrypted", str(res))
         if ext in ("a.odt", "a.ods"):      # manifests larger than 64 KiB (documents with many pictures)
             for encrypted in (False, True):
                 data = rebuild_zip(src, manifest_edit(lambda m, e=encrypted: big_manifest(m, e)))
@@ -669,10 +741,19 @@ def embedded_pdfs(only=None):
     import json
     import subprocess
     import sys
+    import base64
     docs = json.load(open(os.path.join(os.path.dirname(os.path.abspath(__file__)), "C08_pdfs.json")))
+    # /V 4 documents name their cipher through crypt filters: /StmF and /StrF name an entry of /CF, and a reader resolves
+    # whatever name they give.  The same stored documents with the filter called something else than /StdCF (same length:
+    # no cross-reference offset moves; the /Encrypt dictionary itself is never encrypted).
+    for key in [k for k in docs if k.split("|")[0] in ("AES-128", "AES-128@64")]:
+        raw = zlib.decompress(base64.b64decode(docs[key]))
+        if raw.count(b"/StdCF") == 3:
+            algo, pw = key.split("|")
+            docs[algo + "+filter-named-AESCF|" + pw] = base64.b64encode(zlib.compress(raw.replace(b"/StdCF", b"/AESCF"))).decode()
 
     def read(key):
-        pr = subprocess.run([sys.executable, "-c", _PDF_READER, REPO], input=docs[key], capture_output=True, text=True, timeout=120)
+        pr = subprocess.run([sys.executable, "-c", _PDF_READER, REPO], input=docs[key], capture_output=True, text=True, timeout=900)
         try:
             return json.loads(pr.stdout.strip().splitlines()[-1])
         except Exception:  # noqa
@@ -691,6 +772,8 @@ def embedded_pdfs(only=None):
         r = got[key]
         base = got["plain64" if "@64" in algo else "plain"]
         inp = {"stored_pdf": "replay/C08_pdfs.json[" + key + "]", "algorithm": algo, "user_password": "non-empty" if pw else "empty", "process": "fresh"}
+        if "+filter-named" in algo:
+            inp["crypt_filter"] = "/CF << /AESCF << /CFM /AESV2 >> >> /StmF /AESCF /StrF /AESCF (bytes /StdCF replaced in the stored document)"
         if "@64" in algo:
             inp["content_stream"] = "80 bytes = 5 whole AES blocks (PKCS#7 adds a full padding block)"
         if pw and (r["verdict"] != "encrypted" or r["n"] != 0):
@@ -764,11 +847,19 @@ def patch_probe():
     import json
     import subprocess
     import sys
-    pr = subprocess.run([sys.executable, "-c", _PATCH_PROBE, REPO], capture_output=True, text=True, timeout=120)
+    if "r" in _PROBE_CACHE:                 # one probe per replayer process (the validator asks twice, the sweep once)
+        return _PROBE_CACHE["r"]
+    # (the limit only guards against a hang: on a machine with load average > 100 the probe took more than 120 s, and a
+    #  verdict must not depend on load)
+    pr = subprocess.run([sys.executable, "-c", _PATCH_PROBE, REPO], capture_output=True, text=True, timeout=1500)
     try:
-        return json.loads(pr.stdout.strip().splitlines()[-1])
+        _PROBE_CACHE["r"] = json.loads(pr.stdout.strip().splitlines()[-1])
     except Exception:  # noqa
-        return {"error": (pr.stderr or pr.stdout)[-300:]}
+        _PROBE_CACHE["r"] = {"error": (pr.stderr or pr.stdout)[-300:]}
+    return _PROBE_CACHE["r"]
+
+
+_PROBE_CACHE = {}
 
 
 ASSUMED_IMPORTERS = ["pypdf._crypt_providers", "pypdf._crypt_providers._fallback", "pypdf._encryption"]
@@ -908,6 +999,45 @@ def validate_views():
         return bool(r.is_encrypted) and res == 0 and int(res) == 0 and ctor == "WrongPasswordError", \
             f"decrypt('') = {res!r} on the protected fixture; PdfReader(f, password='') -> {ctor}"
     fact("pypdf-is_encrypted-and-decrypt-result-0-for-a-rejected-password", v_pdf)
+
+    def v_pdf_encrypt_dict():
+        # the /Encrypt dictionary view and `decrypts with AES` (contracts/C08.py::pdf_uses_aes) on the stored documents,
+        # incl. the copies whose crypt filter is not called /StdCF: the named filter decides, as pypdf resolves it
+        import base64
+        import json
+        from pypdf import PdfReader
+        from sharepoint2text.parsing.extractors.pdf._pypdf_aes_fallback import patch_pypdf_fallback_aes
+        patch_pypdf_fallback_aes()          # (this validator process only: AES-256 documents need AES in the constructor)
+        docs = json.load(open(os.path.join(os.path.dirname(os.path.abspath(__file__)), "C08_pdfs.json")))
+        seen = []
+        for key in sorted(docs):
+            if key.startswith("AES-256") and not key.startswith("AES-256-R5|"):
+                continue                    # (R6 key derivation in pure Python takes seconds per document; R5 has the same dictionary shape)
+            raw = zlib.decompress(base64.b64decode(docs[key]))
+            for label, data in ((key, raw), (key + " (filter renamed)", raw.replace(b"/StdCF", b"/AESCF"))):
+                if label != key and raw.count(b"/StdCF") != 3:
+                    continue
+                r = PdfReader(io.BytesIO(data))
+                if not r.is_encrypted:
+                    if "/Encrypt" in r.trailer:
+                        return False, f"{label}: not encrypted but the trailer has /Encrypt"
+                    continue
+                e = r.trailer["/Encrypt"]
+                if e.get_object() is not e and e.get_object() != e:
+                    return False, f"{label}: trailer['/Encrypt'] is not resolved"
+                v = int(e.get("/V", 0))
+                stm = str(e.get("/StmF", "/Identity"))
+                names = {stm, str(e.get("/StrF", "/Identity")), str(e.get("/EFF", stm))} - {"/Identity"}
+                cf = e.get("/CF")
+                uses = v >= 4 and any(cf is not None and n in cf and "/CFM" in cf[n] and str(cf[n]["/CFM"]) in ("/AESV2", "/AESV3") and cf[n]["/CFM"] == str(cf[n]["/CFM"])
+                                      for n in names)
+                en = r._encryption      # pypdf's own resolution: the /CFM of the filters named by /StmF, /StrF, /EFF
+                real = any(str(getattr(en, a, "")) in ("/AESV2", "/AESV3") for a in ("StmF", "StrF", "EFF")) if hasattr(en, "StmF") else key.startswith("AES")
+                if uses != key.startswith("AES") or uses != real:
+                    return False, f"{label}: pdf_uses_aes = {uses}, document algorithm {key.split('|')[0]}, pypdf stream cipher is AES: {real}"
+                seen.append(label)
+        return len(seen) >= 10, f"{len(seen)} stored encrypted PDFs (RC4 / AES, /StdCF and renamed filters): the named crypt filter's /CFM decides"
+    fact("pypdf-encrypt-dictionary-view-and-aes-crypt-filter-resolution", v_pdf_encrypt_dict)
     return out
 
 
